@@ -368,11 +368,11 @@ def partitions(run, F):
             small_sorted = lambda rev: ('Box::new(vec.into_iter().chain(iter::repeat(NULL)).take(%s).to_trust(%s))' % (K1, K1),
                                         ('vec := self.titer().collect_trusted_vec1()',
                                          'vec.sort_unstable_by(|a0, a1| a0.sort_cmp%s(a1)).unwrap()' % ('_rev' if rev else '')))
-            sel = 'if rev { IsNone::sort_cmp_rev } else { IsNone::sort_cmp }'
+            sel = lambda rev: 'IsNone::sort_cmp_rev' if rev else 'IsNone::sort_cmp'
             general = lambda rev, sort: ('Box::new(vec.into_iter().to_trust(%s))' % K1,
                                          ('vec := self.titer().collect_trusted_vec1()',
-                                          'vec.select_nth_unstable_by(kth, %s)' % sel, 'vec.truncate(%s)' % K1) +
-                                         (('vec.sort_unstable_by(%s).unwrap()' % sel,) if sort else ()))
+                                          'vec.select_nth_unstable_by(kth, %s)' % sel(rev), 'vec.truncate(%s)' % K1) +
+                                         (('vec.sort_unstable_by(%s).unwrap()' % sel(rev),) if sort else ()))
         exact_unsorted = ('Box::new(self.titer().filter(IsNone::not_none).to_trust(%s))' % K1, ())
         bad = []
         npts = 0
